@@ -12,11 +12,18 @@ QuickLits == {LTok(i) : i \in {1, 2, 5, 9, 11, 14, 16, 19, 21, 23}}
 AllLits == {LTok(i) : i \in DOMAIN Lits}
 IsLit(p) == p \in AllLits
 LitOf(p) == Lits[CHOOSE i \in DOMAIN Lits : LTok(i) = p]
+(* negated literal leaves (`-7`): a leaf, so that every operator meets negative operands already at the *)
+(* exhaustive level (sign of the remainder, rounding of the quotient, shifts of negative values, ...)  *)
+NTok(i) == "N" \o ToString(i)
+NegIdx == {NTok(i) : i \in {j \in DOMAIN Lits : LTok(j) \in LitIdx /\ Lits[j].kind # "byte" /\ Lits[j].src \notin {"0", "B0", "0.0"}}}
+AllNegs == {NTok(i) : i \in DOMAIN Lits}
+IsNeg(p) == p \in AllNegs
+NegOf(p) == Lits[CHOOSE i \in DOMAIN Lits : NTok(i) = p]
 BinOps == {"+", "-", "*", "/", "%", "<<", ">>", "&", "|", "xor"}
 Roots == {"one", "list2"}
 
 VARIABLES toks, pend
-Init == toks = <<>> /\ pend = <<[ty |-> "root", d |-> 0]>>
+Init == toks = <<>> /\ pend = <<[ty |-> "root", d |-> 0, ng |-> FALSE]>>
 
 Arity(p) == IF p \in BinOps THEN 2 ELSE IF p \in {"neg", "ornil", "get"} THEN 1
             ELSE IF p = "list2" THEN 2 ELSE IF p = "one" THEN 1 ELSE 0
@@ -24,17 +31,20 @@ Choose(p) ==
     /\ pend # <<>>
     /\ LET h == Head(pend) IN
        /\ IF h.ty = "root" THEN p \in Roots
-          ELSE IF h.d >= MaxDepth THEN p \in LitIdx
+          ELSE IF h.d >= MaxDepth THEN p \in LitIdx \cup (IF h.ng THEN NegIdx ELSE {})
           ELSE p \in LitIdx \cup BinOps \cup {"neg", "ornil", "get"}
        /\ toks' = Append(toks, p)
-       \* the second element of a list is a plain literal (keeps the list space linear)
-       /\ pend' = [k \in 1..Arity(p) |-> [ty |-> "e", d |-> IF p = "list2" /\ k = 2 THEN MaxDepth ELSE h.d + 1]] \o Tail(pend)
-Next == \E p \in LitIdx \cup BinOps \cup {"neg", "ornil", "get"} \cup Roots : Choose(p)
+       \* the second element of a list is a plain literal (keeps the list space linear); negated leaves
+       \* only as operands of a binary operator below the root `one`
+       /\ pend' = [k \in 1..Arity(p) |-> [ty |-> "e", d |-> IF p = "list2" /\ k = 2 THEN MaxDepth ELSE h.d + 1,
+                                           ng |-> (p = "one") \/ (h.ng /\ p \in BinOps)]] \o Tail(pend)
+Next == \E p \in LitIdx \cup NegIdx \cup BinOps \cup {"neg", "ornil", "get"} \cup Roots : Choose(p)
 
 RECURSIVE Parse(_, _)
 Parse(ts, i) ==
     LET p == ts[i] IN
     IF IsLit(p) THEN [e |-> LitOf(p), nx |-> i + 1]
+    ELSE IF IsNeg(p) THEN [e |-> [k |-> "neg", e |-> NegOf(p)], nx |-> i + 1]
     ELSE IF Arity(p) = 1 THEN
         LET a == Parse(ts, i + 1) IN
         [nx |-> a.nx, e |-> CASE p = "neg" -> [k |-> "neg", e |-> a.e]
